@@ -3117,7 +3117,13 @@ where
           // A map-group alternative succeeds only after every physical key is
           // accounted for. This lets an unexpected-key failure retry the next
           // alternative with the original claim state.
-          self.visit_group_transactional::<T>(group, Some(&keys))?;
+          //
+          // `validating_value` marks the value of a repeated member; the members
+          // of a map type inside that value claim their own pairs again
+          let validating_value = std::mem::replace(&mut self.validating_value, false);
+          let result = self.visit_group_transactional::<T>(group, Some(&keys));
+          self.validating_value = validating_value;
+          result?;
 
           self.state.is_cut_present = false;
           self.cut_value = None;
